@@ -47,6 +47,10 @@ class BaseGotranODECodePrinter(StrPrinter):
     def _print_And(self, expr):
         return f"And({', '.join(self._print(a) for a in expr.args)})"
 
+    def _print_ceiling(self, expr):
+        # The grammar has floor but no ceiling function
+        return f"(-floor(-({self._print(expr.args[0])})))"
+
     def _print_Exp1(self, expr):
         # sympy prints Euler's number as "E", which is not part of the grammar
         return "exp(1)"
